@@ -446,6 +446,14 @@ func evalCondUnder(p *core.Prog, v ssa.Value, as []assumption, depth int) (val, 
 			out, have = b, true
 		}
 		return out, have, used
+	case *ssa.Call:
+		// a boolean call the assumptions speak about (slices.Equal(...), s.Empty())
+		f := p.FactOf(core.Guard{Cond: x, Pol: true})
+		for _, a := range as {
+			if d := a.match(f); d != 0 {
+				return d > 0, true, []string{a.name}
+			}
+		}
 	}
 	return false, false, nil
 }
